@@ -78,4 +78,27 @@ theorem iter_fill {α : Type} (dims W : Nat) (g : Nat → α) (orig : Slice α) 
       exact hf)
   exact this
 
+/-- a phase of `n` steps of width `W` starting at `i0`, where the step is only known to work inside `[lo, hi]` -/
+theorem iter_fill_range {α : Type} (dims W lo hi : Nat) (g : Nat → α) (orig : Slice α)
+    (step : Nat → Slice α → Exec (Slice α))
+    (hstep : ∀ i res, Filled dims g orig i res → lo ≤ i → i + W ≤ hi →
+      ∃ res', step i res = pure res' ∧ Filled dims g orig (i + W) res') :
+    ∀ n i0 res0, Filled dims g orig i0 res0 → lo ≤ i0 → i0 + n * W ≤ hi →
+      ∃ res', iter step W n i0 res0 = pure res' ∧ Filled dims g orig (i0 + n * W) res' := by
+  intro n i0 res0 h0 hlo hle
+  have := iter_inv step W i0 (fun m res => Filled dims g orig (i0 + m * W) res) n res0 (by simpa using h0)
+    (by
+      intro m hm s hs
+      have hb : i0 + m * W + W ≤ hi := by
+        have : (m + 1) * W ≤ n * W := Nat.mul_le_mul_right W (by omega)
+        rw [Nat.succ_mul] at this
+        omega
+      obtain ⟨res', e, hf⟩ := hstep (i0 + m * W) s hs (by omega) hb
+      refine ⟨res', e, ?_⟩
+      rw [Nat.succ_mul]
+      have : i0 + (m * W + W) = i0 + m * W + W := by omega
+      rw [this]
+      exact hf)
+  exact this
+
 end Cfavml
